@@ -11,7 +11,7 @@ Inductive oact :=
 | OPut (k v : bytes) (rot : bool) | ODel (k : bytes) (rot : bool)
 | OGet1 (k : bytes) | OGet2 (r : getres)
 | OScan1 (p : bytes) | OScan2 (r : list (bytes * bytes))
-| OF1 | OF2 | OC1 (ocs : option changeset) (* the change set Compact returned (observed when it is applied) / nil *) | OC2
+| OF1 | OF2 (outs : list table) (* the level-0 tables the flush installed *) | OC1 (ocs : option changeset) (* the change set Compact returned (observed when it is applied) / nil *) | OC2
 | OC1F (* the compaction step hit an injected storage read fault and Compact returned the error *)
 | OReadErr (* the following Get / ScanPrefix returned an error *)
 | ODupFile (* a table file name (NNNNNN.sst) was created or saved a second time *)
@@ -68,7 +68,7 @@ Definition to_ract (o : oact) : ract :=
   | OPut k v r => RPut k v r | ODel k r => RDel k r
   | OGet1 k => RGet1 k | OGet2 _ => RGet2
   | OScan1 p => RScan1 p | OScan2 _ => RScan2
-  | OF1 => RF1 | OF2 => RF2 | OC1 ocs => RC1 ocs | OC2 => RC2 | OC1F => RC1F
+  | OF1 => RF1 | OF2 outs => RF2o outs | OC1 ocs => RC1 ocs | OC2 => RC2 | OC1F => RC1F
   | OReadErr | ODupFile | OTaskErr => RF1 (* not model actions: skipped by model_codes *)
   end.
 
